@@ -274,6 +274,79 @@ func seqPart(out *shardOut, maxLen int, shard, nshards int) {
 	out.Counters["seq_distinct_final_states"] += int64(len(states))
 }
 
+// bulkPart: long logs. A prefix of n completed exchanges (distinct ids) with one request left pending - recorded
+// before or after the others - is followed by every suffix of up to sufLen operations over
+// {Req, Resp} x {a new id, the pending id, the first and the last completed id} + Export, ExportAndReset, Reset,
+// compared step by step with the list model (thresholds that only long logs reach: flushes of many entries,
+// rebuilt indexes, grown maps).
+func bulkPart(out *shardOut, sizes []int, sufLen int, shard, nshards int) {
+	idx := 0
+	var n, steps int64
+	for _, size := range sizes {
+		for _, pendLast := range []bool{false, true} {
+			prefix := []op{}
+			if !pendLast {
+				prefix = append(prefix, op{opReq, "p"})
+			}
+			for i := 0; i < size; i++ {
+				id := fmt.Sprintf("x%d", i)
+				prefix = append(prefix, op{opReq, id}, op{opResp, id})
+			}
+			if pendLast {
+				prefix = append(prefix, op{opReq, "p"})
+			}
+			alpha := alphabet([]string{"a", "p", "x0", fmt.Sprintf("x%d", size-1)})
+			k := len(alpha)
+			total := 1
+			for i := 0; i < sufLen; i++ {
+				total *= k
+			}
+			for x := 0; x < total; x++ {
+				idx++
+				if nshards > 0 && idx%nshards != shard {
+					continue
+				}
+				suffix := make([]op, sufLen)
+				y := x
+				for i := sufLen - 1; i >= 0; i-- {
+					suffix[i] = alpha[y%k]
+					y /= k
+				}
+				l := har.NewLogger()
+				m := &model{}
+				hist := append(append([]op{}, prefix...), suffix...)
+				for i, o := range hist {
+					tag := i + 1
+					want := m.apply(o, tag)
+					got := applyImpl(l, o, tag)
+					steps++
+					if want != got {
+						var hs []string
+						for _, h := range suffix {
+							hs = append(hs, h.String())
+						}
+						where := "suffix"
+						if i < len(prefix) {
+							where = "prefix"
+						}
+						out.Violations = append(out.Violations, lib.Violation{Sig: fmt.Sprintf("bulk:%s:mismatch", kindName(o.Kind)),
+							Desc:   fmt.Sprintf("log of %d completed exchanges + pending request (recorded last=%v), then %v: step %d (%s, in the %s) returned %.200s, model says %.200s", size, pendLast, hs, i+1, o, where, got, want),
+							Replay: map[string]interface{}{"part": "bulk", "size": size, "pend_last": pendLast, "suffix": hs}})
+						break
+					}
+				}
+				n++
+				if len(out.Violations) > 50 {
+					out.Incomplete = "stopped after 50 violations"
+					return
+				}
+			}
+		}
+	}
+	out.Counters["bulk_histories"] += n
+	out.Counters["bulk_steps"] += steps
+}
+
 func parseTags(s string) []int {
 	var out []int
 	s = strings.Trim(s, "[]")
@@ -509,6 +582,11 @@ func main() {
 	if i, n := lib.ShardEnv(); n > 0 {
 		out := &shardOut{Counters: map[string]int64{}}
 		seqPart(out, maxLen, i, n)
+		if tier == "thorough" {
+			bulkPart(out, []int{1, 8, 63, 64, 65, 127, 128, 129, 255, 256, 257, 1000}, 3, i, n)
+		} else {
+			bulkPart(out, []int{1, 63, 64, 65, 200}, 2, i, n)
+		}
 		dl := time.Now().Add(10 * time.Minute)
 		if tier == "thorough" {
 			dl = time.Now().Add(40 * time.Minute)
@@ -549,7 +627,7 @@ func main() {
 	rep.Coverage["traces_validated_against_impl"] = rep.Counter("seq_histories") + rep.Counter("conc_executions")
 	rep.Coverage["executions"] = rep.Counter("conc_executions")
 	rep.Coverage["exhaustive"] = rep.Incomplete == ""
-	rep.Coverage["bounds"] = fmt.Sprintf("sequential: all %d^%d operation sequences (and their prefixes) over ids {a,b,c}; concurrent: %d scenarios of 2-3 threads x 1-2 ops on ids {a,b} from an empty and a primed log, all interleavings (unbounded)", 9, maxLen, len(scen))
+	rep.Coverage["bounds"] = fmt.Sprintf("sequential: all %d^%d operation sequences (and their prefixes) over ids {a,b,c}; long logs: 1..200 (1000 thorough) completed exchanges plus a pending request followed by every suffix of 2 (3) operations; concurrent: %d scenarios of 2-3 threads x 1-2 ops on ids {a,b} from an empty and a primed log, all interleavings (unbounded)", 9, maxLen, len(scen))
 	rep.Coverage["explanation"] = "every trace is an execution of the real har.Logger (rewritten only so that its mutex is a scheduling point); states = distinct final model states + distinct concurrent histories"
 	rep.Assumptions = []string{
 		"scheduling points are the logger lock operations; unsynchronised accesses are the business of the auxiliary free-running -race pass (sampling)",
